@@ -249,6 +249,20 @@ def classify_pattern(schema, nn, v):
                     bad = False
                 if bad:
                     return pattern_signature(p, lo, hi), {"pattern": p, "minLength": lo, "maxLength": hi, "rewritten": new, "string": t}
+        # the other direction: the rewritten pattern is *stricter* than pattern + lengths (it demands consecutive
+        # matches); that is harmless for positive generation but flips under `not` (and oneOf)
+        for p, lo, hi in G.pattern_requests(schema):
+            new = impl_upd(p, lo, hi)
+            if not isinstance(new, str) or new == p:
+                continue
+            for t in strings:
+                try:
+                    stricter = (re.search(p, t) and (lo or 0) <= len(t) and (hi is None or len(t) <= hi)) and not re.search(new, t)
+                except re.error:
+                    stricter = False
+                if stricter and ('"not"' in json.dumps(schema) or '"oneOf"' in json.dumps(schema)):
+                    return ("C01:update_pattern_in_schema:rewritten-pattern-stricter-than-original:flips-under-not-or-oneOf",
+                            {"pattern": p, "minLength": lo, "maxLength": hi, "rewritten": new, "string": t})
         return "C01:update_pattern_in_schema:converted-schema-accepts-nonconforming-string", {}
     return None
 
@@ -1048,7 +1062,8 @@ def run(chk):
            (W_F5, "nullable", False, True, [W_F5_INSTANCE, "abc"]),
            (W_F28, "nullable", False, True, [W_F28_INSTANCE, "ab"]),
            (W_F32, "nullable", False, True, [W_F32_INSTANCE, "a"]),
-           (W_F33, "nullable", False, True, [{}])]
+           (W_F33, "nullable", False, True, [{}]),
+           ({"not": {"type": "string", "pattern": "a|b", "minLength": 3, "maxLength": 4}}, "nullable", False, True, ["a b", "aab"])]
     conv_round(chk, drv, wit, "witness")
     conv_round(chk, drv, gen_conv_items(chk, chk.budget(1000, 20000)), "conv")
     conv_round(chk, drv, gen_conv_items(chk, chk.budget(150, 1500), spice=0.5), "conv-spiced")
